@@ -59,6 +59,14 @@ class MCMCOperator(Identifiable, abc.ABC):
 
     def step(self) -> Tensor:
         self.saved_tensors = [parameter.tensor.clone() for parameter in self.parameters]
+        # a derived parameter (view, concatenation, transformed) does not own its
+        # values: remember those of the parameters it is built from
+        self._saved_underlying = [
+            (underlying, underlying.tensor.clone())
+            for parameter in self.parameters
+            for underlying in parameter.parameters()
+            if underlying is not parameter
+        ]
         return self._step()
 
     def accept(self) -> None:
@@ -70,6 +78,10 @@ class MCMCOperator(Identifiable, abc.ABC):
     def reject(self) -> None:
         for parameter, saved_tensor in zip(self.parameters, self.saved_tensors):
             parameter.tensor = saved_tensor
+        # going back through an inverse transform restores the underlying values
+        # only up to rounding: put the saved ones back bit for bit
+        for underlying, saved_tensor in getattr(self, "_saved_underlying", ()):
+            underlying.tensor = saved_tensor
         self._reject += 1
         self._accept_window.append(0)
         if len(self._accept_window) > self._accept_window_length:
